@@ -331,8 +331,51 @@ fn info_meta(prop: &str, c: &HistoryCase, info: &Info) -> Meta {
     Meta { nontrivial, metrics, tags }
 }
 
+/// independent syntax oracle for C04: the implementation's text must parse as a Rust file consisting of struct items
+fn syn_oracle(c: &HistoryCase) -> Option<String> {
+    // names outside C04's domain (not identifier characters plus - . :) are not in scope
+    for d in &c.docs {
+        if let Some(doc) = &d.dom {
+            let mut names = Vec::new();
+            doc.root.all_names(&mut names);
+            if !names.iter().all(|n| n.chars().all(|ch| cases2::in_sigma(ch) && (ch.is_alphanumeric() || "_-.:".contains(ch))) && n.chars().find(|ch| ch.is_alphanumeric()).map_or(false, |ch| !ch.is_numeric())) {
+                return None;
+            }
+        } else {
+            return None;
+        }
+    }
+    let mut tree = None;
+    for d in &c.docs {
+        if let crate::implrun::Step::Ok(e) = crate::implrun::step(&d.bytes, c.cfg, tree.as_ref()) {
+            tree = Some(e);
+        }
+    }
+    let tree = tree?;
+    for o in &c.opts {
+        if o.derive.contains('\n') {
+            continue;
+        }
+        let txt = crate::implrun::render(&tree, o).ok()?;
+        match syn::parse_file(&txt) {
+            Ok(f) => {
+                if !f.items.iter().all(|i| matches!(i, syn::Item::Struct(_))) {
+                    return Some("syn: the rendered source contains an item that is not a struct".into());
+                }
+            }
+            Err(e) => return Some(format!("syn::parse_file rejects the rendered source: {}", e)),
+        }
+    }
+    None
+}
+
 impl Case for HistoryCase {
     fn line(&self, id: &str, prop: &str) -> LineOut {
+        if prop == "C04" {
+            if let Some(msg) = syn_oracle(self) {
+                return LineOut::ImplFailure(msg);
+            }
+        }
         match self.build() {
             Built::Line { body, info } => LineOut::Line(format!("H {} {} {}", id, prop, body), info_meta(prop, self, &info)),
             Built::Panic(m) => LineOut::ImplFailure(m),
@@ -569,6 +612,7 @@ pub fn run_tables(sum: &mut Summary) {
     let mut cases: Vec<TableCase> = cases2::char_table_cases();
     let nchars = cases.len();
     cases.extend(cases2::convert_table_cases(&mut rng));
+    cases.extend(cases2::preset_cases());
     sum.extra.insert("alphabet_scalars_compared_with_std".into(), json!(nchars));
     sum.extra.insert("convert_string_inputs_compared".into(), json!(cases.len() - nchars));
     let before = (sum.evaluations, sum.distinct, sum.distinct_nontrivial);
